@@ -297,7 +297,7 @@ impl Model {
                     return Outcome::Err(ErrKind::MissingQueue);
                 };
                 if let Some(p) = pos {
-                    if p + 1 == queue.next {
+                    if p.checked_add(1) == Some(queue.next) {
                         return Outcome::Appended { last: None, wal: 0 };
                     }
                     if *p < queue.next {
@@ -308,9 +308,14 @@ impl Model {
                     return Outcome::Appended { last: None, wal: 0 };
                 }
                 let start = pos.unwrap_or(queue.next);
+                // u64::MAX is never a record position (the next position could not follow it): a batch that
+                // does not fit below it is rejected as a whole
+                if start.checked_add(lens.len() as u64).is_none() {
+                    return Outcome::Err(ErrKind::Past);
+                }
                 for (i, &len) in lens.iter().enumerate() {
                     let bytes = payload(*uid, i as u32, len as usize);
-                    queue.recs.push(Rec::of(start + i as u64, &bytes));
+                    queue.recs.push(Rec::of(start + i as u64, &bytes)); // cannot overflow: checked above
                 }
                 let last = start + lens.len() as u64 - 1;
                 queue.next = last + 1;
@@ -322,7 +327,7 @@ impl Model {
                 };
                 let evicted = queue.recs.iter().take_while(|r| r.pos <= *upto).count();
                 queue.recs.drain(..evicted);
-                queue.next = queue.next.max(upto + 1);
+                queue.next = queue.next.max(upto.saturating_add(1));
                 Outcome::Truncated { evicted, wal: 0 }
             }
         }
@@ -362,7 +367,7 @@ impl Model {
             };
             queues.insert(
                 name.clone(),
-                MQueue { incarnation, next: q.last_position.map(|p| p + 1).unwrap_or(0), recs: q.recs.clone() },
+                MQueue { incarnation, next: q.last_position.map(|p| p.saturating_add(1)).unwrap_or(0), recs: q.recs.clone() },
             );
         }
         self.queues = queues;
